@@ -167,6 +167,14 @@ class RemV:
         self.pos = pos
 
 
+class RemTail:
+    """suffix of the input starting right after the ':' that opens the token at `pos`  (TAG:content...)"""
+    __slots__ = ("pos",)
+
+    def __init__(self, pos):
+        self.pos = pos
+
+
 class InputV:
     pass
 
@@ -429,6 +437,8 @@ def merge(c, a, b):
         return TokRef(merge(c, a.idx, b.idx))
     if isinstance(a, RemV) and isinstance(b, RemV):
         return RemV(merge(c, a.pos, b.pos))
+    if isinstance(a, RemTail) and isinstance(b, RemTail):
+        return RemTail(merge(c, a.pos, b.pos))
     if isinstance(a, ConsumedV) and isinstance(b, ConsumedV):
         return ConsumedV(merge(c, a.newpos, b.newpos))
     if isinstance(a, LenV) and isinstance(b, LenV):
@@ -606,6 +616,7 @@ class Machine:
         self.caps_scaled = []
         self.fresh = 0
         self.notes = []
+        self.deferred_prefix = []
         self.field_tags = {}
         self.heur_used = []     # (guard, type, token index) of content-based (letter-less) variant guessing
 
@@ -623,6 +634,10 @@ class Machine:
         for ty, vs in self.heurvar.items():
             for v in vs:
                 cs += [v >= 0, v < max(1, len(self.prog.enums[ty]["variants"]))]
+        # "TAG:..." starts with s  — decided over the final string table (an unknown tag matches no prefix)
+        for p, pos, sx in self.deferred_prefix:
+            ids = [self.strid[t] for t in self.strtab[1:] if (t + ":").startswith(sx)]
+            cs.append(p == B(Or(*[And(pos.bits[i], i < self.n, Or(*[self.tag[i] == k for k in ids])) for i in range(self.N)])))
         return cs + self.side
 
     def topos(self, pos):
@@ -743,6 +758,11 @@ class Machine:
                 v = self.eval(st["expr"], fr, guard)
                 val = v if ((not st["semi"] or v is NEVER) and i == len(stmts) - 1) else UNIT
             elif k == "sitem":
+                it = st["item"]
+                if it.get("k") == "const":
+                    if it["name"] not in saved:
+                        saved[it["name"]] = fr.vars.get(it["name"], _MISSING)
+                    fr.vars[it["name"]] = self.eval(it["expr"], fr, guard)
                 val = UNIT
             else:
                 raise Unsupported("statement kind %s" % k)
@@ -1613,12 +1633,25 @@ class Machine:
                 return recv
             if meth == "is_empty":
                 return self.at_end(recv.pos)
+            if meth == "strip_prefix" and args and args[0] == ":":
+                # every token starts with ':'; at the end of the input there is nothing to strip
+                return Opt(Not(self.at_end(recv.pos)), RemTail(recv.pos))
             if meth == "starts_with":
                 conds = []
                 for g, s in alt_of(args[0]):
                     if not (isinstance(s, str) and len(s) >= 3 and s[0] == ":" and s[-1] == ":" and ":" not in s[1:-1]):
                         raise Unsupported("starts_with(%r) on remaining text is not a field marker" % (s,))
                     conds.append(And(g, self.tag_is(recv.pos, s[1:-1])))
+                return Or(*conds)
+        if isinstance(recv, RemTail):
+            if meth == "starts_with":
+                conds = []
+                for g, sx in alt_of(args[0]):
+                    if not isinstance(sx, str) or ":" in sx[:-1]:
+                        raise Unsupported("starts_with(%r) after the opening colon of a field" % (sx,))
+                    p = z3.Bool("prefix_%d" % len(self.deferred_prefix))
+                    self.deferred_prefix.append((p, self.topos(recv.pos), sx))
+                    conds.append(And(g, p))
                 return Or(*conds)
         if isinstance(recv, InputV):
             if meth == "len":
